@@ -40,6 +40,9 @@ pub struct WorkerSummary {
     pub samples: Vec<serde_json::Value>,
     pub found: Vec<Found>,
     pub stopped_early: bool,
+    /// position (in units of this worker's stride) up to which this summary accounts for
+    #[serde(default)]
+    pub next_k: u64,
 }
 
 fn sched_kind_name(k: u8) -> &'static str {
@@ -71,7 +74,8 @@ pub fn worker_main(args: &[String]) {
     let mut s = WorkerSummary::default();
     let mut sigs: BTreeSet<u64> = BTreeSet::new();
     let mut shs: BTreeSet<u64> = BTreeSet::new();
-    let mut k = 0;
+    let mut k = cli_u64(args, "--from-k", 0);
+    let mut since_partial = 0;
     while k < count {
         if t0.elapsed().as_secs() >= max_wall_s {
             s.stopped_early = true;
@@ -117,9 +121,23 @@ pub fn worker_main(args: &[String]) {
         if !r.violations.is_empty() && s.found.len() < 40 {
             s.found.push(Found { index, plan, violations: r.violations.clone(), event_hash: r.stats.event_hash });
         }
+        since_partial += 1;
+        if since_partial >= 200 {
+            // cumulative checkpoint: if a later run takes the process down, the coordinator
+            // continues from here
+            since_partial = 0;
+            s.signatures = sigs.iter().cloned().collect();
+            s.sched_hashes = shs.iter().cloned().collect();
+            s.next_k = k;
+            let out = std::io::stdout();
+            let mut o = out.lock();
+            writeln!(o, "LSIM-SUMMARY {}", serde_json::to_string(&s).unwrap()).unwrap();
+            o.flush().unwrap();
+        }
     }
     s.signatures = sigs.into_iter().collect();
     s.sched_hashes = shs.into_iter().collect();
+    s.next_k = count;
     let out = std::io::stdout();
     let mut o = out.lock();
     writeln!(o, "LSIM-SUMMARY {}", serde_json::to_string(&s).unwrap()).unwrap();
@@ -225,64 +243,70 @@ pub fn check_main(args: &[String]) -> i32 {
     let mut harness_errors: Vec<String> = Vec::new();
     let mut aborts: Vec<(u64, String)> = Vec::new();
     // (worker number, indices to skip because they abort the process)
-    let mut pending: Vec<(u64, Vec<u64>)> = (0..jobs).map(|w| (w, Vec::new())).collect();
+    let mut pending: Vec<(u64, Vec<u64>, u64)> = (0..jobs).map(|w| (w, Vec::new(), 0)).collect();
     let mut rounds = 0;
-    while !pending.is_empty() && rounds < 6 {
+    while !pending.is_empty() && rounds < 400 {
         rounds += 1;
         let mut children = Vec::new();
-        for (w, skip) in pending.drain(..) {
+        for (w, skip, from_k) in pending.drain(..) {
             let count = (runs + jobs - 1 - w) / jobs;
-            if count == 0 {
+            if count == 0 || from_k >= count {
                 continue;
             }
             let mut cmd = std::process::Command::new(&exe);
             cmd.args(["worker", "--prop", &prop, "--seed", &seed.to_string(), "--start", &w.to_string(), "--stride", &jobs.to_string(), "--count", &count.to_string(), "--max-wall-s", &max_wall_s.to_string()]);
+            cmd.args(["--from-k", &from_k.to_string()]);
             if !skip.is_empty() {
                 cmd.args(["--skip", &skip.iter().map(|x| x.to_string()).collect::<Vec<_>>().join(",")]);
             }
             let child = cmd.envs(malloc_env()).stdout(std::process::Stdio::piped()).stderr(std::process::Stdio::piped()).spawn().expect("spawn worker");
-            children.push((w, skip, child));
+            children.push((w, skip, from_k, child));
         }
-        for (w, skip, child) in children {
+        for (w, skip, from_k, child) in children {
             let outp = child.wait_with_output().expect("wait worker");
-            let mut got = false;
             let mut last_run: Option<u64> = None;
-            for line in outp.stdout.lines().map_while(Result::ok) {
+            let mut last_summary: Option<WorkerSummary> = None;
+            for raw in outp.stdout.split(|b| *b == b'\n') {
+                // (lines may carry non-UTF-8 bytes: garbage strings produced by the database)
+                let line = String::from_utf8_lossy(raw);
                 if let Some(i) = line.strip_prefix("LSIM-RUN ") {
                     last_run = i.trim().parse().ok();
                 } else if let Some(js) = line.strip_prefix("LSIM-SUMMARY ") {
                     match serde_json::from_str::<WorkerSummary>(js) {
-                        Ok(s) => {
-                            got = true;
-                            total.runs += s.runs;
-                            total.executions += s.executions;
-                            total.steps += s.steps;
-                            total.sched_points += s.sched_points;
-                            total.ctx_switches += s.ctx_switches;
-                            total.timers_fired += s.timers_fired;
-                            total.idle_firings += s.idle_firings;
-                            total.eager_firings += s.eager_firings;
-                            total.sim_ns += s.sim_ns;
-                            total.fs_effects += s.fs_effects;
-                            total.wall_us += s.wall_us;
-                            total.nontrivial_runs += s.nontrivial_runs;
-                            total.stopped_early |= s.stopped_early;
-                            sigs.extend(s.signatures);
-                            shs.extend(s.sched_hashes);
-                            for (k, v) in s.counters {
-                                *total.counters.entry(k).or_insert(0) += v;
-                            }
-                            for (k, v) in s.sched_kinds {
-                                *total.sched_kinds.entry(k).or_insert(0) += v;
-                            }
-                            if total.samples.len() < 3 {
-                                total.samples.extend(s.samples.into_iter().take(1));
-                            }
-                            total.found.extend(s.found);
-                        }
+                        Ok(s) => last_summary = Some(s),
                         Err(e) => harness_errors.push(format!("worker {w}: bad summary: {e}")),
                     }
                 }
+            }
+            let count = (runs + jobs - 1 - w) / jobs;
+            let reached = last_summary.as_ref().map(|s| s.next_k).unwrap_or(from_k);
+            let got = outp.status.success() && reached >= count;
+            if let Some(s) = last_summary {
+                total.runs += s.runs;
+                total.executions += s.executions;
+                total.steps += s.steps;
+                total.sched_points += s.sched_points;
+                total.ctx_switches += s.ctx_switches;
+                total.timers_fired += s.timers_fired;
+                total.idle_firings += s.idle_firings;
+                total.eager_firings += s.eager_firings;
+                total.sim_ns += s.sim_ns;
+                total.fs_effects += s.fs_effects;
+                total.wall_us += s.wall_us;
+                total.nontrivial_runs += s.nontrivial_runs;
+                total.stopped_early |= s.stopped_early;
+                sigs.extend(s.signatures);
+                shs.extend(s.sched_hashes);
+                for (k, v) in s.counters {
+                    *total.counters.entry(k).or_insert(0) += v;
+                }
+                for (k, v) in s.sched_kinds {
+                    *total.sched_kinds.entry(k).or_insert(0) += v;
+                }
+                if total.samples.len() < 3 {
+                    total.samples.extend(s.samples.into_iter().take(1));
+                }
+                total.found.extend(s.found);
             }
             if !got {
                 let err = String::from_utf8_lossy(&outp.stderr);
@@ -290,10 +314,13 @@ pub fn check_main(args: &[String]) -> i32 {
                 match last_run {
                     Some(i) if !skip.contains(&i) => {
                         // the database took the whole process down (abort / segfault) in run i
+                        if std::env::var_os("LSIM_DEBUG_COORD").is_some() {
+                            eprintln!("coord: round {rounds} worker {w} died at index {i} (from_k {from_k}, reached {reached}, skips {})", skip.len());
+                        }
                         aborts.push((i, format!("worker process died (status {:?}) while executing run index {i}; stderr tail:\n{tail}", outp.status)));
                         let mut skip2 = skip.clone();
                         skip2.push(i);
-                        pending.push((w, skip2));
+                        pending.push((w, skip2, reached));
                     }
                     _ => harness_errors.push(format!("worker {w} failed (status {:?}):\n{}", outp.status.code(), tail)),
                 }
